@@ -12,8 +12,20 @@ import (
 	"testing"
 )
 
+// vfThoroughScale multiplies the thorough-tier list sizes of a property so that each thorough check explores
+// for minutes rather than seconds (measured: every check stays below about ten minutes on 16 cores).
+var vfThoroughScale = map[string]int{ //nolint:gochecknoglobals
+	"C01": 6, "C02": 6, "C03": 4, "C05": 3, "C06": 5, "C07": 5, "C10": 5, "C11": 4, "C12": 4, "C13": 5, "C14": 4, "C15": 2, "C17": 4, "C18": 6, "C19": 5,
+}
+
+var vfCurrentProp string //nolint:gochecknoglobals // set by TestVF before the scenario list is built
+
 func vfTierN(tier string, quick, thorough int) int {
 	if tier == "thorough" {
+		if k := vfThoroughScale[vfCurrentProp]; k > 1 && thorough > 0 {
+			return thorough * k
+		}
+
 		return thorough
 	}
 
